@@ -139,18 +139,28 @@ func mergeLogging(c any, o any, p tree.Path) (any, error) {
 }
 
 func mergeBuild(c any, o any, path tree.Path) (any, error) {
-	toBuild := func(c any) map[string]any {
+	toBuild := func(c any) (map[string]any, error) {
 		switch v := c.(type) {
 		case string:
 			return map[string]any{
 				"context": v,
-			}
+			}, nil
 		case map[string]any:
-			return v
+			return v, nil
+		case nil:
+			return map[string]any{}, nil
 		}
-		return nil
+		return nil, fmt.Errorf("%s: unexpected type %T", path, c)
 	}
-	return mergeMappings(toBuild(c), toBuild(o), path)
+	right, err := toBuild(c)
+	if err != nil {
+		return nil, err
+	}
+	left, err := toBuild(o)
+	if err != nil {
+		return nil, err
+	}
+	return mergeMappings(right, left, path)
 }
 
 func mergeDependsOn(c any, o any, path tree.Path) (any, error) {
